@@ -83,6 +83,8 @@ def zsort(t):
         return th.opt_sort(str(t.args[0]), zsort(t.args[0]))
     if k == 'Set':
         return z3.ArraySort(zsort(t.args[0]), z3.BoolSort())
+    if k == 'Fun':
+        return z3.ArraySort(zsort(t.args[0]), zsort(t.args[1]))
     if k == 'Seq':
         key = str(t)
         if key not in _seq_sorts:
